@@ -64,6 +64,8 @@ pub struct Task {
 
 impl Task {
     pub fn new(proc: &Arc<Process>, tid: &str, node: Arc<Node>, rt: &Arc<Runtime>) -> Self {
+        #[cfg(feature = "verif")]
+        crate::verif::state_write(proc.id(), tid, "new", "none", "none");
         Self {
             pid: proc.id().to_string(),
             id: tid.to_string(),
